@@ -272,7 +272,7 @@ def finish(mod, tier, result, t0, coverage, assumptions=None):
                 vs = [{'clause': 'harness', 'cls': 'exception', 'msg': traceback.format_exc()}]
             obs.append(sorted((v['clause'], v['cls']) for v in vs))
         if obs[0] != obs[1] or key not in [tuple(x) for x in obs[0]]:
-            sys.stderr.write('HARNESS ERROR: witness for %s does not replay deterministically: %s vs %s\n' % (key, obs[0], obs[1]))
+            sys.stderr.write('HARNESS ERROR: witness for %s does not replay deterministically: %s vs %s\n%s\n' % (key, obs[0], obs[1], vs[0]['msg'] if vs else ''))
             return 2
         if getattr(mod, 'MINIMISE', True):
             case = minimise(mod, case, key)
